@@ -181,6 +181,35 @@ class C08Mixin(object):
             same = all(el[i.isotope] is i for i in items) and nums == sorted(el.isotopes)
         return {"nums": nums, "same": same, "distinct": len(set(regs)) == len(regs)}
 
+    def ev_iter_interleaved(self, tbl, Z, k, what, arg=None):
+        """An iteration that is still being consumed while something else legal happens: take k
+        items from iter(el) (or iter(table)), perform the operation, take the rest."""
+        t = self.table(tbl)
+        src = t if Z is None else t[Z]
+        it = iter(src)
+        got = []
+        for _ in range(k):
+            try:
+                got.append(next(it))
+            except StopIteration:
+                break
+        if what == "add_isotope":
+            t[Z if Z is not None else 26].add_isotope(arg)
+        elif what == "init_mass":
+            self.module("periodictable.mass").init(t, reload=bool(arg))
+        elif what == "lookup":
+            self._lookup(tbl, "isostr", arg)
+        else:
+            raise ValueError(what)
+        got += list(it)
+        if Z is None:
+            nums = [e.number for e in got]
+            same = all(t[e.number] is e for e in got)
+        else:
+            nums = [i.isotope for i in got]
+            same = all(src[i.isotope] is i for i in got)
+        return {"nums": nums, "same": same, "increasing": nums == sorted(set(nums))}
+
     def ev_add_isotope(self, tbl, Z, A):
         el = self.table(tbl)[Z]
         iso = el.add_isotope(A)
